@@ -1,7 +1,7 @@
 package main
 
 func init() {
-	for _, id := range []string{"C04", "C07", "C11", "C20"} {
+	for _, id := range []string{"C04", "C07", "C20"} {
 		notApplicable[id] = "not yet claimed: contracts for this property are still being written (see DESIGN.md); no check is registered"
 	}
 	notApplicable["C12"] = "command/response matching lives in goroutine, channel and timer interplay (onActiveEvent/onActiveRespondEvent/write); no sequential function contract within the verifier's subset carries the claim"
@@ -227,6 +227,23 @@ func init() {
 			"reassembly itself: PackageProgress.stageStreamData/iter (interface dispatch, range-over-func, sort, deferred closure) are outside the verifier's subset: 'complete only when every byte has arrived', byte-identical content, duplicate and out-of-order chunks, any segmentation of the stream. Reading the code: CurrentSize is increased for every chunk, also for a resent one, so duplicates can make CurrentSize reach FileSize while bytes are missing - not decided here, not repaired",
 			"each control frame answered exactly once (connection.run, goroutines and sockets)",
 			"the file-name field (bytes.Trim is modelled as 'some sub-slice')",
+		},
+	})
+}
+
+func init() {
+	registerProp(&PropDef{
+		ID:    "C11",
+		Title: "Session registry: at most one live connection per terminal key",
+		Roots: []string{"service.(*sessionManager).join$1", "service.(*sessionManager).leave$1", "service.(*sessionManager).write$1"},
+		Decided: "the three operations the single manager goroutine applies to the key -> session map, each as one sequential step over a ghost model of the reply channel (values sent, last value, closed): " +
+			"join answers exactly once; for a key that is present it answers an error wrapping the key-exists sentinel and leaves that key's session untouched, otherwise it answers nil and records a fresh session with the caller's channel and header; " +
+			"leave removes the given key and closes its reply channel; write hands the command to the channel of the session that owns the key (with that session's header and the reply channel attached) or answers a message whose error wraps ErrNotExistKey; " +
+			"in all three every other key keeps its presence and its session (quantified over all strings). A map is a function, so 'at most one session per key' is the map invariant these steps preserve",
+		Undecided: []string{
+			"everything about schedules: that operations are applied one at a time (sessionManager.run's receive loop), blocking sends, the interleavings of connection goroutines and callers, join/leave callbacks being announced once (connection.reader/stop)",
+			"the closures' callers (join/leave/write create the channels and wait on them) - the preconditions 'reply channel open' and 'sessions in the map are non-nil with open channels' are assumptions about them",
+			"keyFunc (user supplied)",
 		},
 	})
 }
